@@ -484,7 +484,11 @@ class Datastore(metaclass=ABCMeta):
             raise
         else:
             self._transaction.commit()
-        self._transaction = self._transaction.parent
+        finally:
+            # Restore the enclosing transaction on every exit path; otherwise
+            # a caught failure of a nested block leaves later operations of
+            # the outer block logging into the dead inner transaction.
+            self._transaction = self._transaction.parent
 
     def _set_trust_mode(self, mode: bool) -> None:
         """Set the trust mode for this datastore.
